@@ -9,7 +9,8 @@ Expression-level model used by the theorems of C08 (core Lean only).
 * `pr` — the minimal unparser (parenthesises only where the parser would otherwise build another tree).
 * `nb`/`annot`/`flat` — the printer of prettyprinter.go restricted to operator trees: children first,
   a child is wrapped in parentheses iff `ppNeedsBrackets(parent, child, index)`; `nb` is that rule on
-  the heads of parent and child.
+  the heads of parent and child (a `return` with a value is always wrapped under an operator and never
+  wraps its own operand).
 
 This is NOT the full printer model (`Ecal.Print` in Printer.lean, which produces the text including
 templates, indentation and comments). The driver compares the two on every pure operator expression.
@@ -35,15 +36,18 @@ inductive PExpr where
   deriving DecidableEq, Repr
 
 /-- binding powers: `bp k` of the infix operator `k`, `pb k` of the prefix operator node `k`,
-    `off` the amount `ndPrefix` adds for its operand -/
+    `off` the amount `ndPrefix` adds for its operand; `stmt k` marks a statement-like prefix keyword
+    (`return` with a value, `ndReturn`): its operand is parsed with right binding 0, i.e. it takes
+    everything that follows -/
 structure Powers where
   bp : Nat → Nat
   pb : Nat → Nat
   off : Nat
+  stmt : Nat → Bool := fun _ => false
 
 namespace Powers
 /-- right binding with which a prefix operator parses its operand -/
-def pbp (P : Powers) (k : Nat) : Nat := P.pb k + P.off
+def pbp (P : Powers) (k : Nat) : Nat := if P.stmt k then 0 else P.pb k + P.off
 end Powers
 
 def lbp (P : Powers) : List Tok → Nat
@@ -127,15 +131,22 @@ def Expr.head : Expr → Head
   | .pre k _ => .pre k
 
 /-- the bracket rule of the printer (`ppNeedsBrackets`) on operator heads; `exc K k` is its
-    exception ("brackets around k under K are regarded as needless") -/
-def nb (P : Powers) (exc : Nat → Nat → Bool) : Head → Head → Nat → Bool
-  | _, .atom, _ => false
-  | .atom, _, _ => false
-  | .pre K, .bin k, _ => decide (P.bp k ≤ P.pb K + P.off)
-  | .pre K, .pre k, _ => decide (P.pb k ≤ P.pb K + P.off)
-  | .bin K, .pre k, _ => decide (P.bp K > P.pb k + P.off)
-  | .bin K, .bin k, idx =>
-    if exc K k then false else decide (P.bp K > P.bp k) || (decide (P.bp K = P.bp k) && decide (idx > 0))
+    exception ("brackets around k under K are regarded as needless"), which applies only if the child's
+    chain is `pure` (ppIsProductChain) -/
+def nb (P : Powers) (exc : Nat → Nat → Bool) : Head → Head → Nat → Bool → Bool
+  | _, .atom, _, _ => false
+  | .atom, _, _, _ => false
+  | .pre K, .bin k, _, _ => if P.stmt K then false else decide (P.bp k ≤ P.pb K + P.off)
+  | .pre K, .pre k, _, _ => if P.stmt K then false else if P.stmt k then true else decide (P.pb k ≤ P.pb K + P.off)
+  | .bin K, .pre k, _, _ => if P.stmt k then true else decide (P.bp K > P.pb k + P.off)
+  | .bin K, .bin k, idx, pure =>
+    if exc K k && pure then false else decide (P.bp K > P.bp k) || (decide (P.bp K = P.bp k) && decide (idx > 0))
+
+/-- ppIsProductChain: the operators of binding `b` on the left spine of `e` (printed without brackets) all
+    fall under the exception of parent `K` (are products or quotients) -/
+def chainPure (P : Powers) (exc : Nat → Nat → Bool) (K b : Nat) : Expr → Bool
+  | .bin k l _ => if P.bp k = b then exc K k && chainPure P exc K b l else true
+  | _ => true
 
 def wrap (b : Bool) (p : PExpr) : PExpr := if b then PExpr.paren p else p
 
@@ -143,17 +154,19 @@ def wrap (b : Bool) (p : PExpr) : PExpr := if b then PExpr.paren p else p
 def annot (P : Powers) (exc : Nat → Nat → Bool) : Expr → PExpr
   | .atom n => .atom n
   | .bin k l r =>
-    .bin k (wrap (nb P exc (.bin k) l.head 0) (annot P exc l)) (wrap (nb P exc (.bin k) r.head 1) (annot P exc r))
-  | .pre k x => .pre k (wrap (nb P exc (.pre k) x.head 0) (annot P exc x))
+    .bin k (wrap (nb P exc (.bin k) l.head 0 (chainPure P exc k (P.bp k) l)) (annot P exc l))
+      (wrap (nb P exc (.bin k) r.head 1 (chainPure P exc k (P.bp k) r)) (annot P exc r))
+  | .pre k x => .pre k (wrap (nb P exc (.pre k) x.head 0 true) (annot P exc x))
 
 /-- printed token list of the printer -/
 def printToks (P : Powers) (exc : Nat → Nat → Bool) (e : Expr) : List Tok := (annot P exc e).flat
 
-/-- a right operand `k` under `K` for which the exception applies occurs somewhere in the tree -/
-def hasExc (exc : Nat → Nat → Bool) : Expr → Bool
+/-- a right operand `k` under `K` for which the exception applies (pure chain) occurs somewhere in the tree -/
+def hasExc (P : Powers) (exc : Nat → Nat → Bool) : Expr → Bool
   | .atom _ => false
-  | .bin K l r => hasExc exc l || hasExc exc r || (match r.head with | .bin k => exc K k | _ => false)
-  | .pre _ x => hasExc exc x
+  | .bin K l r => hasExc P exc l || hasExc P exc r ||
+      (match r.head with | .bin k => exc K k && chainPure P exc K (P.bp K) r | _ => false)
+  | .pre _ x => hasExc P exc x
 
 /-- the parentheses are admissible in context (m, f): `m` = right binding of the enclosing run,
     `f` = bound on the binding of the operator that follows -/
